@@ -239,6 +239,44 @@ theorem closed_implies_outcome_http2 (l t : Nat) (evs : List Ev) (ha : Admissibl
     (run l t evs).core.live = false :=
   closed_implies_outcome_http1 l t evs ha hset hrh hC hpt hW
 
+-- HTTP/3 (Http3Server / Http3Client deliver the same per-stream events over QUIC stream events; tied by offline
+-- HTTP/3 client/server runs)
+
+theorem requestheaders_first_http3 (l t : Nat) (evs : List Ev) (ha : Admissible l t evs)
+    (pre post : List Out) (h : Hook) (hsplit : (run l t evs).trace = pre ++ .hook h :: post) :
+    (h = .request ∨ h = .responseheaders ∨ h = .response ∨ h = .error → Out.hook .requestheaders ∈ pre) ∧
+    (h = .requestheaders → Out.hook .requestheaders ∉ pre) :=
+  requestheaders_first_http1 l t evs ha pre post h hsplit
+
+theorem request_at_most_once_http3 (l t : Nat) (evs : List Ev) (ha : Admissible l t evs)
+    (pre post : List Out) (hsplit : (run l t evs).trace = pre ++ .hook .request :: post) : Out.hook .request ∉ pre :=
+  request_at_most_once_http1 l t evs ha pre post hsplit
+
+theorem responseheaders_before_response_http3 (l t : Nat) (evs : List Ev) (ha : Admissible l t evs)
+    (pre post : List Out) (h : Hook) (hsplit : (run l t evs).trace = pre ++ .hook h :: post) :
+    (h = .responseheaders → Out.hook .responseheaders ∉ pre ∧ Out.hook .response ∉ pre) ∧
+    (h = .response → Out.hook .responseheaders ∈ pre ∧ Out.hook .response ∉ pre) :=
+  responseheaders_before_response_http1 l t evs ha pre post h hsplit
+
+theorem never_response_and_error_http3 (l t : Nat) (evs : List Ev) (ha : Admissible l t evs) :
+    ¬(Out.hook .response ∈ (run l t evs).trace ∧ Out.hook .error ∈ (run l t evs).trace) :=
+  never_response_and_error_http1 l t evs ha
+
+theorem unstreamed_request_before_responseheaders_http3 (l t : Nat) (evs : List Ev) (ha : Admissible l t evs)
+    (hns : Out.streamStart ∉ (run l t evs).trace)
+    (pre post : List Out) (hsplit : (run l t evs).trace = pre ++ .hook .responseheaders :: post) :
+    Out.hook .request ∈ pre :=
+  unstreamed_request_before_responseheaders_http1 l t evs ha hns pre post hsplit
+
+theorem closed_implies_outcome_http3 (l t : Nat) (evs : List Ev) (ha : Admissible l t evs)
+    (hset : (run l t evs).settled = true)
+    (hrh : Out.hook .requestheaders ∈ (run l t evs).trace)
+    (hC : (run l t evs).core.isConnect = false) (hpt : (run l t evs).core.pt = false)
+    (hW : (run l t evs).core.websocket = false) :
+    (Out.hook .response ∈ (run l t evs).trace ↔ Out.hook .error ∉ (run l t evs).trace) ∧
+    (run l t evs).core.live = false :=
+  closed_implies_outcome_http1 l t evs ha hset hrh hC hpt hW
+
 /-- an HTTP/2 exchange with trailers in both directions: admissible, ordered, and the trailers are forwarded after
     the hooks -/
 private def exH2 : List Ev :=
